@@ -333,7 +333,8 @@ def V (VC : σ → List Nat → Prop) (H : Nat) (s : State σ) (l : List Nat) : 
     ∧ s.window.Pairwise (· < ·) ∧ (∀ δ ∈ s.window, δ < H ∧ s.bucketIdx ≤ δ / 64)
     ∧ (∀ x ∈ U, s.ws + H ≤ x) ∧ Sorted l
     ∧ ((s.doc = TERMINATED ∧ s.window = [] ∧ ls = [] ∧ l = [])
-        ∨ ((∀ δ ∈ s.window, s.doc < s.ws + δ) ∧ l = s.doc :: (s.window.map (s.ws + ·) ++ U)))
+        ∨ (s.ws ≤ s.doc ∧ s.doc < s.ws + H ∧ (∀ δ ∈ s.window, s.doc < s.ws + δ)
+            ∧ l = s.doc :: (s.window.map (s.ws + ·) ++ U)))
 
 theorem isUnion_nil {U : List Nat} (h : SimpleUnion.IsUnion U []) : U = [] := by
   cases U with
@@ -474,7 +475,7 @@ theorem refill_pop_law (hC : Lawful C VC WC) (hscore : ∀ {c l}, VC c l → VC 
               have := ((Spec.mem_seek hUs b).mp hb).2
               omega
         exact (pairwise_ext hpwR hUs.1 hmemR).symm
-      refine ⟨ls', Spec.seek (m + H) U, ?_, r2, hU', ?_, ?_, ?_, hUs, Or.inr ⟨?_, ?_⟩⟩
+      refine ⟨ls', Spec.seek (m + H) U, ?_, r2, hU', ?_, ?_, ?_, hUs, Or.inr ⟨by rw [f3, f5]; omega, by rw [f3, f5]; omega, ?_, ?_⟩⟩
       · rw [f6]; exact r1
       · rw [f2]; exact hp''.2
       · intro δ hδ
@@ -500,7 +501,7 @@ theorem advance_law (hC : Lawful C VC WC) (hscore : ∀ {c l}, VC c l → VC (C.
   cases hw : s.window with
   | cons δ w =>
     -- pop the smallest buffered document
-    rcases hcase with ⟨_, hw0, _, _⟩ | ⟨hlt, rfl⟩
+    rcases hcase with ⟨_, hw0, _, _⟩ | ⟨_, _, hlt, rfl⟩
     · rw [hw] at hw0; cases hw0
     · have hδ := hwb δ (by rw [hw]; simp)
       obtain ⟨s', e1, e2, e3, e4, e5, e6, _⟩ := advBuf_pop (H := H) (δ / 64 - s.bucketIdx) s hw
@@ -509,7 +510,7 @@ theorem advance_law (hC : Lawful C VC WC) (hscore : ∀ {c l}, VC c l → VC (C.
       rw [e1]
       simp only
       have hp' := List.pairwise_cons.mp (hw ▸ hwp)
-      refine ⟨ls, U, e6 ▸ h2, hne, hU, e2 ▸ hp'.2, ?_, e5 ▸ hUh, ?_, Or.inr ⟨?_, ?_⟩⟩
+      refine ⟨ls, U, e6 ▸ h2, hne, hU, e2 ▸ hp'.2, ?_, e5 ▸ hUh, ?_, Or.inr ⟨by rw [e3, e5]; omega, by rw [e3, e5]; have := hδ.1; omega, ?_, ?_⟩⟩
       · intro x hx
         rw [e2] at hx
         have hx' := hwb x (by rw [hw]; exact List.mem_cons_of_mem _ hx)
@@ -527,7 +528,7 @@ theorem advance_law (hC : Lawful C VC WC) (hscore : ∀ {c l}, VC c l → VC (C.
     rw [e1]
     simp only
     have hl : Spec.advance l = U := by
-      rcases hcase with ⟨_, _, h0, rfl⟩ | ⟨_, rfl⟩
+      rcases hcase with ⟨_, _, h0, rfl⟩ | ⟨_, _, _, rfl⟩
       · subst h0; exact (isUnion_nil hU).symm
       · simp [Spec.advance, hw]
     rw [hl]
@@ -539,7 +540,7 @@ theorem core0 (hC : Lawful C VC WC) (hscore : ∀ {c l}, VC c l → VC (C.score 
   sorted := by rintro s l ⟨_, _, _, _, _, _, _, _, hs, _⟩; exact hs
   doc_eq := by
     rintro s l ⟨_, _, _, _, _, _, _, _, _, hc⟩
-    rcases hc with ⟨h1, _, _, rfl⟩ | ⟨_, rfl⟩
+    rcases hc with ⟨h1, _, _, rfl⟩ | ⟨_, _, _, rfl⟩
     · exact h1
     · rfl
   advance := fun h => advance_law hC hscore hH hH0 h
